@@ -43,6 +43,19 @@ func (u *ActiveUser) CloseSession(sessionID uint32, reason string) {
 	}
 }
 
+// terminateIfEmpty terminates the user if it has no session. A connection refused by GetSession calls it, as the
+// user may have been made active for this connection only. It names no session id: it cannot close a session
+// that another connection has created in the meantime
+func (u *ActiveUser) terminateIfEmpty() {
+	u.sessionsM.Lock()
+	empty := len(u.sessions) == 0
+	u.retired = u.retired || empty
+	u.sessionsM.Unlock()
+	if empty {
+		u.panel.TerminateActiveUser(u, "no session left")
+	}
+}
+
 // GetSession returns the reference to an existing session, or if one such session doesn't exist, it queries
 // the UserManager for the authorisation for a new session. If a new session is allowed, it creates this new session
 // and returns its reference
